@@ -42,17 +42,24 @@ def types_of(d):
 
 
 def mentions(t, names, depth=0):
-    """(max depth at which a parameter name occurs as a whole component, occurs-in-namespace?)"""
+    """(max depth at which a parameter occurs as a whole unqualified name, hazardous scoped use?)"""
     _, _c, ns, name, targs, _m = t
     best = -1
     scoped = False
     if name in names and not ns:
-        best = depth
+        best = depth + 1 if (name == 'This' and depth >= 1) else depth     # a bare `This` is only replaced at the top level
     if name in names and ns:
         scoped = True           # a namespace-qualified name that merely equals a parameter spelling
-    if any(c in names for c in ns):
-        best = max(best, depth)
-        scoped = True
+    for p in names:
+        if p != 'This' and p in ns:
+            # scoped use P::rest: the code rewrites by str.replace on the whole spelling
+            spelled = '::'.join(list(ns) + [name])
+            if spelled.count(p) > 1 or depth >= 1 or ns[0] != p:
+                scoped = True
+            scoped = scoped or 'templ' == 0
+            best = max(best, depth)
+    if 'This' in names and 'This' in ns:
+        best = max(best, depth + 1 if depth >= 1 else 0)     # This::X is only handled at the first template-argument level
     for a in targs:
         b, s = mentions(a, names, depth + 1)
         best = max(best, b)
@@ -60,15 +67,17 @@ def mentions(t, names, depth=0):
     return best, scoped
 
 
-def substring_hit(t, names):
-    """a parameter spelling occurs inside another identifier of the type (the str.replace hazard)"""
+def scoped_params(t, names):
+    """parameters used as P::X anywhere in t"""
     _, _c, ns, name, targs, _m = t
-    comps = list(ns) + [name]
-    for p in names:
-        for c in comps:
-            if c != p and p in c:
-                return True
-    return any(substring_hit(a, names) for a in targs)
+    out = {p for p in names if p in ns and p != 'This'}
+    for a in targs:
+        out |= scoped_params(a, names)
+    return out
+
+
+def substring_hit(t, names):
+    return False
 
 
 def known_predicates(module):
@@ -90,8 +99,6 @@ def known_predicates(module):
         names = []
         if k == 'class':
             names = [m[3] for m in d[5] if m[0] in ('method', 'static')]
-            if any(m[0] == 'op' and m[2] == '==' for m in d[5]):
-                hits.add('C01-operator-eq-parsed-as-property')
             if any(m[0] == 'enum' for m in d[5]):
                 hits.add('enum-in-class')
         if k == 'func':
@@ -121,8 +128,12 @@ def known_predicates(module):
                 hits.add('C02-scoped-parameter')
             if depth >= 1 and (t[1] or t[5]):
                 pass
-            if substring_hit(t, params):
-                hits.add('C02-substring-replace')
+            for p in scoped_params(t, params):
+                # scoped use with an instantiation that is itself templated: ns::map::Value<int> (known finding)
+                for tp in tpls:
+                    for pp_, insts in tp[1]:
+                        if pp_ == p and any(i[4] for i in (insts or ())):
+                            hits.add('C02-scoped-parameter-templated-instantiation')
             # a parameter inside template arguments together with qualifiers / This in nested position
         if k == 'func' and d[1] is not None:
             for p, insts in d[1][1]:
@@ -137,8 +148,6 @@ def known_predicates(module):
                 hits.add('invalid-typedef-arity')
             elif target[0] == 'func':
                 hits.add('typedef-of-function')
-            if path != tuple(d[1][2]):
-                hits.add('typedef-across-namespaces')
         if k == 'var' and d[3] is not None and path:
             hits.add('C09-namespaced-variable-with-value')
         if k == 'ns' or not path:
